@@ -184,4 +184,63 @@ theorem infix_direct2 {name p1 p2 F : String}
   simp only [entryOK, beq_self_eq_true, Bool.true_and, Bool.and_eq_true, beq_iff_eq] at hok
   rw [run_direct2 _ _ _ _ _ hok.1.1 _ _ _ hl, hok.1.2]
 
+/-! ## `f(a1, …, an)` (`__call__`, modelled by hand and pinned by its AST hash) -/
+
+theorem lookup_call : Gen.Infix.table.lookup "__call__" = some ⟨[], true, [.opaque "a4bb6eeb2ae42963"]⟩ := by rfl
+
+theorem run_call (self : Term) (args : List Arg) :
+    Infix.run Gen.Infix.table "__call__" self args = callModel self args := by
+  unfold Infix.run fuel
+  unfold runMethod
+  simp only [lookup_call, if_true, exec]
+  have hh : ("__call__" == "__call__" && alignedHashes.contains ("__call__", "a4bb6eeb2ae42963")) = true := by
+    decide
+  simp only [hh, if_true, bind, Except.bind]
+  cases callModel self args <;> rfl
+
+theorem termArgs_terms (as : List Term) : termArgs (as.map Arg.t) = .ok as := by
+  induction as with
+  | nil => rfl
+  | cons a as ih => simp [termArgs, ih, bind, Except.bind]
+
+theorem prep_terms : ∀ (as : List Term) (ts : List Ty), as.length = ts.length →
+    callModel.prep (as.map Arg.t) ts = .ok (as.map Arg.t)
+  | [], [], _ => rfl
+  | a :: as, t :: ts, h => by
+    have := prep_terms as ts (by simpa using h)
+    simp [callModel.prep, this, prepareArg, bind, Except.bind]
+  | [], _ :: _, h => by simp at h
+  | _ :: _, [], h => by simp at h
+
+/-- **`f(a1, …, an)`** on formulas: the application `Function(f, [a1, …, an])` -/
+theorem call_method (f : Sym) (as : List Term) (hp : f.params ≠ []) (hl : as.length = f.params.length) :
+    Infix.run Gen.Infix.table "__call__" (Term.sym f) (as.map Arg.t) = Mk.Function f as := by
+  rw [run_call]
+  unfold callModel Term.sym
+  have h1 : f.params.isEmpty = false := by
+    cases hps : f.params with
+    | nil => exact absurd hps hp
+    | cons _ _ => rfl
+  simp only [h1, Bool.false_eq_true, if_false, List.length_map, hl, ne_eq, not_true_eq_false,
+    prep_terms as f.params hl, bind, Except.bind]
+  have h2 : call "Function" (Arg.sym f :: as.map Arg.t) = (do Mk.Function f (← termArgs (as.map Arg.t))) := rfl
+  rw [h2, termArgs_terms]
+  rfl
+
+/-- a function application denotes the interpretation of the symbol applied to the argument values -/
+theorem function_denotes (I : Interp) {f : Sym} {as : List Term} {t : Term} (h : Mk.Function f as = .ok t)
+    (hne : as ≠ []) : eval I t = I.fn f (as.map (eval I)) := by
+  unfold Mk.Function at h
+  have h1 : as.isEmpty = false := by
+    cases as with
+    | nil => exact absurd rfl hne
+    | cons _ _ => rfl
+  simp only [h1, Bool.false_eq_true, if_false] at h
+  split at h
+  · cases h
+  · split at h
+    · cases h
+    · rw [create_ok h, eval_node]
+      simp [evalNode, List.map_map, Function.comp_def]
+
 end PySMT.C06
